@@ -53,6 +53,13 @@ CLAIMED["C03"] = dict(
     note="Trusted: git 2.39 (real), the harness's YAML renderer and reference classifier (its own data model, not pint's parser). Preconditions, stated because the reference is ambiguous outside them: renames are pure `git mv` commits; a file version holding the same rule content twice, or one name several times for a changed rule, accepts any consistent state; moved-and-modified rules accept 'renamed' or 'modified'. No faults are injected (the property quantifies over histories). The state markers are observed without --offline because pint registers report checks under the name query/cost (DESIGN 'Observations').",
 )
 
+CLAIMED["C20"] = dict(
+    design="5.9",
+    technique="simulated removal histories (feature author deleting rules and files, re-adding providers elsewhere, renaming files, breaking YAML) in a real scratch git repository; real `pint ci` binary after every commit; rule/dependency warnings compared with a reference dependency graph computed from the generator's model with the Prometheus PromQL parser",
+    text="Rule sets with random cross-references (recording rules used by recording rules and alerts, ALERTS / ALERTS_FOR_STATE selectors with equality, regex and negative alertname matchers, two alerts in one expression, one name shared by a recording rule and an alert, duplicate providers in several files) lose random rules and files over 1-3 commits. For every rule removed from its file lineage: exactly when some rule remaining at HEAD selects what it produced and no rule of the same kind and name remains, one Warning must be reported on the removed rule's fork-point path and lines, listing exactly the dependants (name, path, expression line); otherwise none; and no warning anywhere else.",
+    note="Trusted: as C03. A file that no longer parses at HEAD makes 'remaining' ambiguous: expectations that differ between counting and not counting its rules are skipped (counted in the evidence). No faults are injected.",
+)
+
 NA = {
     "C01": "pure function of the file bytes (agreement of two acceptors): no schedule, clock, fault or peer for a simulator to own; deciding it is differential input generation, which this task's technique family excludes",
     "C02": "totality of a pure function of (bytes, parser mode): nothing time-, schedule- or fault-dependent in the anchored code",
